@@ -270,21 +270,37 @@ theorem buildUQ_error (u : UQ N) (gs : List (N × Rat)) (err : EstErr N)
     · cases h
     · cases h; exact Or.inr rfl
 
+theorem uqPart_error (lib : Library N S) (gs : List (N × Rat)) (err : EstErr N)
+    (h : uqPart lib gs = .error err) : (∃ g, err = .notInBasis g) ∨ err = .shape := by
+  unfold uqPart at h
+  split at h
+  · cases h
+  · split at h
+    · rename_i e he; cases h; exact buildUQ_error _ _ _ he
+    · cases h
+
+/-- the constructor succeeds exactly when its three stages do -/
+theorem construct_ok_iff (lib : Library N S) (s : S) (gs : List (N × Rat)) (e : Estimator) :
+    construct lib s gs = .ok e ↔
+      ∃ cs uq, collect lib s gs = .ok cs ∧ uqPart lib gs = .ok uq ∧ finish (N := N) lib.name cs uq = .ok e := by
+  unfold construct
+  split
+  · rename_i e' he'
+    simp [he']
+  · rename_i cs hcs
+    split
+    · rename_i e' he'
+      simp [hcs, he']
+    · rename_i uq huq
+      simp [hcs, huq]
+
 /-- what a successful constructor call fixes -/
 theorem construct_ok (lib : Library N S) (s : S) (gs : List (N × Rat)) (e : Estimator)
     (h : construct lib s gs = .ok e) :
     collect lib s gs = .ok e.correlations ∧ e.name = lib.name ∧ e.range = commonRange e.correlations := by
-  unfold construct at h
-  split at h
-  · cases h
-  · rename_i cs hcs
-    split at h
-    · obtain ⟨h1, h2, h3, _⟩ := finish_ok _ _ _ _ h
-      rw [h1]; exact ⟨hcs, h2, h3⟩
-    · split at h
-      · cases h
-      · obtain ⟨h1, h2, h3, _⟩ := finish_ok _ _ _ _ h
-        rw [h1]; exact ⟨hcs, h2, h3⟩
+  obtain ⟨cs, uq, hcs, _, hf⟩ := (construct_ok_iff lib s gs e).mp h
+  obtain ⟨h1, h2, h3, _⟩ := finish_ok _ _ _ _ hf
+  rw [h1]; exact ⟨hcs, h2, h3⟩
 
 theorem construct_error (lib : Library N S) (s : S) (gs : List (N × Rat)) (err : EstErr N)
     (h : construct lib s gs = .error err) (hm : specMissing lib s gs = []) :
@@ -294,14 +310,12 @@ theorem construct_error (lib : Library N S) (s : S) (gs : List (N × Rat)) (err 
   · rename_i e he
     exact absurd hm (collect_error lib s gs e he).2
   · split at h
+    · rename_i e he
+      cases h
+      rcases uqPart_error _ _ _ he with h | h
+      · exact Or.inl h
+      · exact Or.inr (Or.inl h)
     · exact Or.inr (Or.inr (finish_error _ _ _ _ h))
-    · split at h
-      · rename_i e he
-        cases h
-        rcases buildUQ_error _ _ _ he with h | h
-        · exact Or.inl h
-        · exact Or.inr (Or.inl h)
-      · exact Or.inr (Or.inr (finish_error _ _ _ _ h))
 
 theorem terms_allOk_iff (lib : Library N S) (s : S) (get : Corr → Val) (gs : List (N × Rat)) (cs : List (Corr × Rat))
     (ht : Terms lib s gs cs) : AllOk get cs ↔ ∀ g ∈ gs, HasDatum lib s get g.1 := by
@@ -384,6 +398,269 @@ theorem estimate_ok_iff (reg : List S) (lib : Library N S) (gs : List (N × Rat)
     · rename_i hm; simp only [hm, true_and]; exact ⟨fun h => ⟨hr, h⟩, fun h => h.2⟩
     · rename_i m ms hm; simp [hm]
   · rename_i hr; simp only [reduceCtorEq, false_iff, not_and]; exact fun h => absurd h hr
+
+/-! ### order of the mapping -/
+
+theorem pyMax_eq_max (a b : Rat) : pyMax a b = max a b := by
+  unfold pyMax
+  split
+  · rename_i h; exact (max_eq_right (le_of_lt h)).symm
+  · rename_i h; exact (max_eq_left (not_lt.mp h)).symm
+
+theorem pyMin_eq_min (a b : Rat) : pyMin a b = min a b := by
+  unfold pyMin
+  split
+  · rename_i h; exact (min_eq_right (le_of_lt h)).symm
+  · rename_i h; exact (min_eq_left (not_lt.mp h)).symm
+
+theorem interRange_right_comm (acc a b : Option (Rat × Rat)) :
+    interRange (interRange acc a) b = interRange (interRange acc b) a := by
+  rcases acc with _ | ⟨lo, hi⟩ <;> rcases a with _ | ⟨a1, a2⟩ <;> rcases b with _ | ⟨b1, b2⟩ <;>
+    simp only [interRange, pyMax_eq_max, pyMin_eq_min, Option.some.injEq, Prod.mk.injEq]
+  · exact ⟨max_comm _ _, min_comm _ _⟩
+  · exact ⟨max_right_comm _ _ _, min_right_comm _ _ _⟩
+
+instance : RightCommutative (fun (acc : Option (Rat × Rat)) (c : Corr × Rat) => interRange acc c.1.range) :=
+  ⟨fun acc a b => interRange_right_comm acc a.1.range b.1.range⟩
+
+theorem commonRange_perm {a b : List (Corr × Rat)} (h : a.Perm b) : commonRange a = commonRange b := by
+  unfold commonRange
+  exact h.foldl_eq _
+
+/-- a total version of `corrOf` (only used where the property set exists) -/
+def corrD (lib : Library N S) (s : S) (g : N) : Corr :=
+  match corrOf lib s g with
+  | some c => c
+  | none => ⟨fun _ => .error .internal, fun _ => .error .internal, fun _ => .error .internal, none⟩
+
+theorem terms_eq_map (lib : Library N S) (s : S) (gs : List (N × Rat)) (cs : List (Corr × Rat))
+    (ht : Terms lib s gs cs) : cs = gs.map fun g => (corrD lib s g.1, g.2) := by
+  induction gs generalizing cs with
+  | nil =>
+    cases cs with
+    | nil => rfl
+    | cons c cs => simp [Terms] at ht
+  | cons g rest ih =>
+    cases cs with
+    | nil => simp [Terms] at ht
+    | cons c cs =>
+      obtain ⟨h1, h2, h3⟩ := ht
+      rw [List.map_cons, ← ih cs h3]
+      congr 1
+      simp only [corrD, h1, h2]
+
+theorem specMissing_perm (lib : Library N S) (s : S) {gs gs' : List (N × Rat)} (h : gs.Perm gs')
+    (hm : specMissing lib s gs = []) : specMissing lib s gs' = [] := by
+  rw [specMissing_nil_iff] at hm ⊢
+  exact fun g hg => hm g (h.mem_iff.mpr hg)
+
+theorem placeX_ok_iff (basis : List N) (gs : List (N × Rat)) (x : List Rat) :
+    (∃ y, placeX basis gs x = .ok y) ↔ ∀ g ∈ gs, g.1 ∈ basis := by
+  induction gs generalizing x with
+  | nil => simp [placeX]
+  | cons g rest ih =>
+    obtain ⟨g, n⟩ := g
+    unfold placeX
+    split
+    · rename_i hi
+      simp only [reduceCtorEq, exists_false, List.mem_cons, forall_eq_or_imp, false_iff, not_and]
+      intro hg
+      rw [List.idxOf?, List.findIdx?_eq_none_iff] at hi
+      have := hi g hg
+      simp at this
+    · rename_i i hi
+      rw [ih]
+      simp only [List.mem_cons, forall_eq_or_imp, iff_and_self]
+      intro _
+      rw [List.idxOf?] at hi
+      obtain ⟨h1, h2⟩ := List.findIdx?_eq_some_iff_getElem.mp hi
+      simp only [beq_iff_eq] at h2
+      rw [← h2.1]
+      exact List.getElem_mem h1
+
+theorem placeX_length (basis : List N) (gs : List (N × Rat)) (x y : List Rat)
+    (h : placeX basis gs x = .ok y) : y.length = x.length := by
+  induction gs generalizing x with
+  | nil => simp [placeX] at h; rw [h]
+  | cons g rest ih =>
+    obtain ⟨g, n⟩ := g
+    unfold placeX at h
+    split at h
+    · cases h
+    · rw [ih _ h, List.length_set]
+
+theorem buildUQ_ok_iff (u : UQ N) (gs : List (N × Rat)) :
+    (∃ q, buildUQ u gs = .ok q) ↔ (∀ g ∈ gs, g.1 ∈ u.basis) ∧ shapeOK u.basis.length u.mat = true := by
+  unfold buildUQ
+  constructor
+  · rintro ⟨q, h⟩
+    split at h
+    · cases h
+    · rename_i x hx
+      split at h
+      · rename_i hs; exact ⟨(placeX_ok_iff _ _ _).mp ⟨x, hx⟩, hs⟩
+      · cases h
+  · rintro ⟨h1, h2⟩
+    obtain ⟨x, hx⟩ := (placeX_ok_iff u.basis gs (zeros u.basis.length)).mpr h1
+    simp [hx, h2]
+
+theorem uqPart_ok_perm (lib : Library N S) {gs gs' : List (N × Rat)} (h : gs.Perm gs')
+    (hu : ∃ q, uqPart lib gs = .ok q) : ∃ q, uqPart lib gs' = .ok q := by
+  unfold uqPart at hu ⊢
+  split
+  · exact ⟨_, rfl⟩
+  · rename_i u hu'
+    simp only [hu'] at hu
+    have : ∃ q, buildUQ u gs = .ok q := by
+      obtain ⟨q, hq⟩ := hu
+      split at hq
+      · cases hq
+      · rename_i q' hq'; exact ⟨q', hq'⟩
+    obtain ⟨h1, h2⟩ := (buildUQ_ok_iff u gs).mp this
+    obtain ⟨q', hq'⟩ := (buildUQ_ok_iff u gs').mpr ⟨fun g hg => h1 g (h.mem_iff.mpr hg), h2⟩
+    simp [hq']
+
+theorem finish_ok_of_range {N : Type} (name : Option (List Nat)) (cs cs' : List (Corr × Rat)) (uq uq' : Option UQE)
+    (e : Estimator) (hr : commonRange cs' = commonRange cs) (h : finish (N := N) name cs uq = .ok e) :
+    ∃ e', finish (N := N) name cs' uq' = .ok e' := by
+  unfold finish at h ⊢
+  rw [hr]
+  split at h
+  · simp
+  · rename_i lo hi h0
+    split at h
+    · rename_i hle; simp [hle]
+    · cases h
+
+/-- `Estimate` succeeds for a mapping iff it succeeds for any reordering of it, and the terms are reordered alike -/
+theorem estimate_perm (reg : List S) (lib : Library N S) {gs gs' : List (N × Rat)} (s : S) (e : Estimator)
+    (hp : gs.Perm gs') (he : estimate reg lib gs s = .ok e) :
+    ∃ e', estimate reg lib gs' s = .ok e' ∧ e'.correlations.Perm e.correlations ∧ e'.name = e.name ∧ e'.range = e.range := by
+  obtain ⟨hr, hm, hc⟩ := (estimate_ok_iff reg lib gs s e).mp he
+  obtain ⟨cs, uq, hcs, huq, hf⟩ := (construct_ok_iff lib s gs e).mp hc
+  have hm' := specMissing_perm lib s hp hm
+  obtain ⟨cs', hcs'⟩ := collect_of_noMissing lib s gs' hm'
+  obtain ⟨uq', huq'⟩ := uqPart_ok_perm lib hp ⟨uq, huq⟩
+  have e1 := terms_eq_map lib s gs cs (collect_ok lib s gs cs hcs)
+  have e2 := terms_eq_map lib s gs' cs' (collect_ok lib s gs' cs' hcs')
+  have hperm : cs'.Perm cs := by rw [e1, e2]; exact (hp.map _).symm
+  obtain ⟨e', hf'⟩ := finish_ok_of_range (N := N) lib.name cs cs' uq uq' e (commonRange_perm hperm) hf
+  refine ⟨e', (estimate_ok_iff reg lib gs' s e').mpr ⟨hr, hm', (construct_ok_iff lib s gs' e').mpr ⟨cs', uq', hcs', huq', hf'⟩⟩, ?_⟩
+  obtain ⟨a1, a2, a3, _⟩ := finish_ok _ _ _ _ hf
+  obtain ⟨b1, b2, b3, _⟩ := finish_ok _ _ _ _ hf'
+  rw [a1, b1, a2, b2, a3, b3]
+  exact ⟨hperm, rfl, commonRange_perm hperm⟩
+
+/-! ### the range of the estimate -/
+
+theorem interRange_none_iff (acc r : Option (Rat × Rat)) : interRange acc r = none ↔ acc = none ∧ r = none := by
+  rcases acc with _ | ⟨lo, hi⟩ <;> rcases r with _ | ⟨a, b⟩ <;> simp [interRange]
+
+/-- folding the intersection only shrinks the interval, and the result lies inside every range folded in -/
+theorem foldRange_spec (cs : List (Corr × Rat)) (acc : Option (Rat × Rat)) :
+    match cs.foldl (fun acc c => interRange acc c.1.range) acc with
+    | none => acc = none ∧ ∀ c ∈ cs, c.1.range = none
+    | some (lo, hi) =>
+      (∀ a b, acc = some (a, b) → a ≤ lo ∧ hi ≤ b) ∧ ∀ c ∈ cs, ∀ a b, c.1.range = some (a, b) → a ≤ lo ∧ hi ≤ b := by
+  induction cs generalizing acc with
+  | nil =>
+    rcases acc with _ | ⟨lo, hi⟩
+    · simp
+    · simp only [List.foldl_nil, Option.some.injEq, Prod.mk.injEq, and_imp, List.not_mem_nil, false_imp_iff, implies_true,
+        and_true]
+      rintro a b rfl rfl; exact ⟨le_refl _, le_refl _⟩
+  | cons c rest ih =>
+    simp only [List.foldl_cons]
+    have ih := ih (interRange acc c.1.range)
+    split
+    · rename_i h
+      rw [h] at ih
+      obtain ⟨h1, h2⟩ := ih
+      obtain ⟨h3, h4⟩ := (interRange_none_iff _ _).mp h1
+      refine ⟨h3, ?_⟩
+      intro c' hc'
+      rcases List.mem_cons.mp hc' with rfl | hc'
+      · exact h4
+      · exact h2 c' hc'
+    · rename_i lo hi h
+      rw [h] at ih
+      obtain ⟨h1, h2⟩ := ih
+      constructor
+      · rintro a b rfl
+        rcases hr : c.1.range with _ | ⟨a', b'⟩
+        · exact h1 a b (by simp [interRange, hr])
+        · obtain ⟨x, y⟩ := h1 (pyMax a a') (pyMin b b') (by simp [interRange, hr])
+          rw [pyMax_eq_max] at x; rw [pyMin_eq_min] at y
+          exact ⟨le_trans (le_max_left _ _) x, le_trans y (min_le_left _ _)⟩
+      · intro c' hc' a b hab
+        rcases List.mem_cons.mp hc' with rfl | hc'
+        · rcases acc with _ | ⟨lo0, hi0⟩
+          · exact h1 a b (by simp [interRange, hab])
+          · obtain ⟨x, y⟩ := h1 (pyMax lo0 a) (pyMin hi0 b) (by simp [interRange, hab])
+            rw [pyMax_eq_max] at x; rw [pyMin_eq_min] at y
+            exact ⟨le_trans (le_max_right _ _) x, le_trans y (min_le_right _ _)⟩
+        · exact h2 c' hc' a b hab
+
+/-! ### `get_SoR` / `get_GoRT` as relations -/
+
+/-- without the elemental term, `get_SoR` is the plain weighted sum -/
+theorem SoR_plain (sel : Nat → Option Rat) (e : Estimator) (T : Rat) (flag : PyFlag) (hf : flag.truthy = false) :
+    e.SoR sel T flag = wsum (·.sor T) e.correlations := by
+  unfold Estimator.SoR
+  simp only [hf, Bool.false_eq_true, if_false]
+  cases wsum (fun x => x.sor T) e.correlations with
+  | error err => rfl
+  | ok v => simp
+
+omit [DecidableEq N] in
+theorem sum_sub_sum (gs : List (N × Rat)) (a b : N → Rat) :
+    (gs.map fun g => g.2 * a g.1).sum - (gs.map fun g => g.2 * b g.1).sum
+      = (gs.map fun g => g.2 * (a g.1 - b g.1)).sum := by
+  induction gs with
+  | nil => simp
+  | cons g rest ih => simp only [List.map_cons, List.sum_cons]; rw [← ih]; ring
+
+
+
+theorem SoR_ok_iff (sel : Nat → Option Rat) (e : Estimator) (T : Rat) (flag : PyFlag) (v : Rat) :
+    e.SoR sel T flag = .ok v ↔
+      ∃ sele s, (if flag.truthy then selements sel e.name else .ok 0) = .ok sele ∧
+        wsum (·.sor T) e.correlations = .ok s ∧ v = s - sele := by
+  unfold Estimator.SoR
+  cases h1 : (if flag.truthy = true then selements sel e.name else Except.ok 0) with
+  | error err => simp
+  | ok sele =>
+    cases h2 : wsum (fun x => x.sor T) e.correlations with
+    | error err => simp
+    | ok s =>
+      simp only [Except.ok.injEq, exists_and_left, exists_eq_left']
+      exact eq_comm
+
+theorem GoRT_ok_iff (o : ND) (T : Rat) (flag : PyFlag) (v : Rat) :
+    o.GoRT T flag = .ok v ↔ ∃ h s, o.hort T = .ok h ∧ o.sor T flag = .ok s ∧ v = h - s := by
+  unfold ND.GoRT
+  cases h1 : o.hort T with
+  | error err => simp
+  | ok h =>
+    cases h2 : o.sor T flag with
+    | error err => simp
+    | ok s =>
+      simp only [Except.ok.injEq, exists_and_left, exists_eq_left']
+      exact eq_comm
+
+/-! ### linearity of the specification sum -/
+
+theorem specEstimate_append (lib : Library N S) (s : S) (get : Corr → Val) (g1 g2 : List (N × Rat)) :
+    specEstimate lib s get (g1 ++ g2) = specEstimate lib s get g1 + specEstimate lib s get g2 := by
+  simp [specEstimate]
+
+theorem specEstimate_scale (lib : Library N S) (s : S) (get : Corr → Val) (k : Rat) (gs : List (N × Rat)) :
+    specEstimate lib s get (gs.map fun g => (g.1, k * g.2)) = k * specEstimate lib s get gs := by
+  induction gs with
+  | nil => simp [specEstimate]
+  | cons g rest ih =>
+    simp only [specEstimate, List.map_cons, List.sum_cons] at ih ⊢
+    rw [ih]; ring
 
 end
 
